@@ -577,8 +577,15 @@ fn stmt_to_asg_stmt(stmt: synast::Stmt, context: &mut Context) -> Option<asg::St
         }
 
         synast::Stmt::AliasDeclarationStatement(alias_stmt) => {
-            let name_str = alias_stmt.name().unwrap().string();
-            let rhs = expr_to_asg_texpr(alias_stmt.expr(), context).unwrap();
+            // The parser accepts forms without a name or a translatable right-hand side,
+            // e.g. `let $0 = q;`.
+            let Some(name) = alias_stmt.name() else {
+                return not_impl!(context, alias_stmt);
+            };
+            let name_str = name.string();
+            let Some(rhs) = expr_to_asg_texpr(alias_stmt.expr(), context) else {
+                return not_impl!(context, alias_stmt);
+            };
             // Bind the name to the RHS, giving it the same type as the RHS.
             let symbol_id = context.new_binding(name_str.as_ref(), rhs.get_type(), &alias_stmt);
             Some(asg::Alias::new(symbol_id, rhs).to_stmt())
